@@ -231,3 +231,41 @@ Proof.
     clear -Hf. induction Hf; cbn [length]; congruence.
 Qed.
 End Total.
+
+(* ================= (4) totality of the dispatch ================= *)
+Section RouteTotal.
+Context {A : Type}.
+Variable zero : A.
+Variable scale : A -> A.
+
+(* With raw data, TemplateModel.get_waveforms ALWAYS answers with one entry per queried id -- from the store when
+   it holds every queried id, from the raw data otherwise -- for every query inside spike_samples (negative ids
+   wrap) on channels in {-1} u [0, c): no error exit is reachable.  (The data the store was exported from may be
+   any recording [sdata].) *)
+Theorem route_total c (data sdata : list (list A)) samples n nch spikes ids q_ids channel_ids :
+  rect c data -> 1 <= c -> 1 <= n ->
+  Forall (fun s => 0 <= s < zlen data) samples ->
+  Forall (fun sp => chans_ok c (sp_ch sp)) spikes ->
+  Forall (fun x => 0 <= x) ids -> zlen ids = zlen spikes ->
+  Forall (fun i => - zlen samples <= i < zlen samples) q_ids ->
+  chans_ok c (route_chans nch channel_ids) ->
+  exists w,
+    model_get_waveforms zero (Some data)
+      (Some (mkstore ids (map sp_ch spikes) (scaled_windows zero scale sdata n spikes)))
+      samples n nch q_ids channel_ids = GwOut w /\ zlen w = zlen q_ids.
+Proof.
+  intros Hr Hc Hn Hs Hok Hids Hlen Hq Hch.
+  set (st := mkstore ids (map sp_ch spikes) (scaled_windows zero scale sdata n spikes)).
+  assert (Hch' : Forall (fun ch => -1 <= ch) (route_chans nch channel_ids)).
+  { unfold chans_ok in Hch. eapply Forall_impl; [|exact Hch]. cbv beta. intros; lia. }
+  destruct (store_total zero scale c sdata n spikes ids q_ids (route_chans nch channel_ids) Hok Hids Hlen Hch')
+    as (Hnone & Hsome & _). fold st in Hnone, Hsome.
+  destruct (gsw_asserts q_ids (route_chans nch channel_ids) st n) eqn:E.
+  - destruct (Hsome eq_refl) as (out & Hout & Hl). exists out. split; [|exact Hl].
+    unfold model_get_waveforms. fold (route_chans nch channel_ids). fold st. now rewrite E, Hout.
+  - destruct (route_fallback zero data st samples n nch q_ids channel_ids E) as [H1 _]. rewrite H1.
+    destruct (route_raw zero c data samples n nch q_ids channel_ids Hr Hc Hn Hs Hq Hch) as (ss & HF & Hw).
+    eexists. split; [exact Hw|]. unfold zlen. rewrite map_length. f_equal. symmetry.
+    clear -HF. induction HF; cbn [length]; congruence.
+Qed.
+End RouteTotal.
